@@ -122,7 +122,7 @@ def expect_rl(label):
     return False
 
 
-def run_pipeline(ctx, impl, model, cases, family_label="c21_pipeline", timeout=40):
+def run_pipeline(ctx, impl, model, cases, family_label="c21_pipeline", timeout=150):
     lines, meta = [], {}
     for label, stack, s, d, m in cases:
         line = f"{stack} {timeout} {hexs(s)} {hexs(d)}"
@@ -231,7 +231,7 @@ def run(ctx):
         # the debug build is run for its overflow checks and debug_assert!s, with a stack to match its frames
         dbg = build_impl("debug")
         big = [(l, 8192, s, d, m) for (l, _, s, d, m) in pcs]
-        run_pipeline(ctx, dbg, model, big, timeout=240)
+        run_pipeline(ctx, dbg, model, big, timeout=600)
     ctx.cov["rule"] = (
         "gd_*: schemas/documents with chains, cycles and lassos of input objects, directive definitions and fragments at "
         "lengths limit-1, limit, limit+1, limit+2, 10*limit for the limits 32, 100, 128, 500; cycles through every pair (and "
